@@ -639,3 +639,77 @@ Theorem C12_exception_view_told_is_gated : forall c r,
   (view_outcome c r = Ran <-> spec_runs c r = true).
 Proof. exact exception_view_told_is_gated. Qed.
 Print Assumptions C12_exception_view_told_is_gated.
+
+(* ---- proof-only round: end-to-end composition (Proofs/C12_e2e.v) *)
+Require Import Verif.Proofs.C12_e2e.
+
+Theorem C12_e2e_gate : forall c k steps s,
+  let pr := the_params (c_storage c) in
+  let mine := requests_of_as k steps in
+  let held := held_before_as pr c (st_get k s) mine in
+  Forall2 (fun p out =>
+             let cs := with_settings c (ss_settings (snd p)) in
+             let r' := with_client_state (fst p) (ss_request (snd p)) in
+             out = view_outcome cs r' /\
+             (out = Ran -> spec_runs cs r' = true) /\
+             (wf_tokens cs r' = true -> (out = Ran <-> spec_runs cs r' = true)))
+          (combine held mine)
+          (outcomes_of_as k steps (fst (run_clients_as pr c s steps))) /\
+  st_get k (snd (run_clients_as pr c s steps)) = snd (run_client_as pr c (st_get k s) mine).
+Proof. exact e2e_gate. Qed.
+Print Assumptions C12_e2e_gate.
+
+Theorem C12_e2e_interleaving_independent : forall pr c k steps s,
+  outcomes_of_as k steps (fst (run_clients_as pr c s steps)) = fst (run_client_as pr c (st_get k s) (requests_of_as k steps)) /\
+  st_get k (snd (run_clients_as pr c s steps)) = snd (run_client_as pr c (st_get k s) (requests_of_as k steps)).
+Proof. exact interleaving_independent_as. Qed.
+Print Assumptions C12_e2e_interleaving_independent.
+
+Theorem C12_e2e_constant_settings : forall pr c s0 steps s,
+  run_clients_as pr c s (map (fun kx => (fst kx, (s0, snd kx))) steps) = run_clients_a pr (with_settings c s0) s steps.
+Proof. exact run_clients_as_const. Qed.
+Print Assumptions C12_e2e_constant_settings.
+
+Theorem C12_e2e_configuration : forall c cls call d,
+  c_explicit c = explicit_of cls call -> c_defaults c = Some d ->
+  forall s, effective (with_settings c s) = gen_directive_options d /\
+            c_explicit (with_settings c s) = spec_explicit cls call /\
+            o_require (effective (with_settings c s)) = dflt (d_require d) true /\
+            o_check_origin (effective (with_settings c s)) = dflt (d_check_origin d) true /\
+            o_allow_no_origin (effective (with_settings c s)) = dflt (d_allow_no_origin d) false.
+Proof. exact e2e_configuration. Qed.
+Print Assumptions C12_e2e_configuration.
+
+Theorem C12_e2e_unchecked_views : forall pr c steps s,
+  c_explicit c = Some false -> Forall (fun out => out = Ran) (fst (run_clients_as pr c s steps)).
+Proof. exact e2e_unchecked_views. Qed.
+Print Assumptions C12_e2e_unchecked_views.
+
+Theorem C12_e2e_special_views : forall pr c steps s,
+  c_explicit c = special_explicit -> Forall (fun out => out = Ran) (fst (run_clients_as pr c s steps)).
+Proof. exact e2e_special_views. Qed.
+Print Assumptions C12_e2e_special_views.
+
+Theorem C12_e2e_example :
+  fst (run_clients_as repaired ex_cfg [(1, Some [97; 49; 98; 50; 99; 51; 100; 52])]
+         [(1, (ex_dot, (ANew, ex_req_subdomain))); (2, ([], (ANone, ex_req_subdomain)));
+          (1, ([], (ANone, ex_req_subdomain))); (1, (ex_dot, (ANone, ex_req_subdomain)))]) =
+  [Ran; BadOrigin RNoMatch; BadOrigin RNoMatch; BadToken].
+Proof. exact ex_e2e. Qed.
+Print Assumptions C12_e2e_example.
+
+(* ---- proof-only round: characterisation of the aslist model (Proofs/C12_aslist.v) *)
+Require Import Verif.Proofs.C12_aslist.
+
+Theorem C12_aslist_items : forall v, Forall (fun t => t <> [] /\ forallb nonws t = true) (aslist v).
+Proof. exact aslist_items. Qed.
+Print Assumptions C12_aslist_items.
+
+Theorem C12_aslist_concat : forall v, concat (aslist v) = filter nonws (concat v).
+Proof. exact aslist_concat. Qed.
+Print Assumptions C12_aslist_concat.
+
+Theorem C12_aslist_blank : forall v,
+  forallb (fun c => memN c py_whitespace) (concat v) = true -> aslist v = [].
+Proof. exact aslist_blank. Qed.
+Print Assumptions C12_aslist_blank.
